@@ -10,7 +10,7 @@ from __future__ import annotations
 
 from typing import Any, Callable, List, Tuple
 
-from vf.specs import ARR_C, NUM_C, OBJ_C, STR_C, F, Program, Sp, can_default, default_value, is_required, named
+from vf.specs import ARR_C, NUM_C, OBJ_C, STR_C, F, Program, Sp, can_default, default_value, is_required, named, static_alias
 
 # patterns used by pools, with hand-written matchers (start-anchored, like re.match)
 PATTERNS = {
@@ -208,8 +208,8 @@ class RefDeser:
             if "deserialization" not in f.skip and (f.init or f.initvar)
         ]
 
-    def ext(self, f: F) -> str:
-        return self.opts.aliaser(f.ext)
+    def ext(self, s: Sp, f: F) -> str:
+        return self.opts.aliaser(static_alias(s, f))
 
     def flat_aliases(self, s: Sp) -> List[str]:
         """external names consumed by an object spec used as a flattened field"""
@@ -219,7 +219,7 @@ class RefDeser:
             if f.flatten:
                 out.extend(self.flat_aliases(f.sp))
             elif f.properties is None:
-                out.append(self.ext(f))
+                out.append(self.ext(s, f))
         return out
 
     def deref(self, s: Sp) -> Sp:
@@ -384,7 +384,7 @@ class RefDeser:
         for f in fields:
             if f.flatten or f.properties is not None:
                 continue
-            a = self.ext(f)
+            a = self.ext(s, f)
             required = is_required(s, f)
             fbd = (f.fall_back or self.opts.fall_back_on_default) and not required and can_default(s, f)
             fsp = f.sp
@@ -404,7 +404,7 @@ class RefDeser:
             else:
                 for req_by, needed in dep_req.items():
                     # field `req_by` present requires the fields in `needed`
-                    if f.name in needed and self.ext(by_name[req_by]) in d:
+                    if f.name in needed and self.ext(s, by_name[req_by]) in d:
                         errs.append((loc + (a,), "requiredBy"))
                         break
         for f in fields:
